@@ -2457,22 +2457,30 @@ pub fn handle_fakekey_action<'a, const C: usize, const R: usize, T>(
 ) where
     T: 'a + std::fmt::Debug + Copy,
 {
+    // An operation on the key that is still queued decides, once it is processed, whether the key is
+    // pressed; `states` does not show it yet. Without this, two toggles before the next tick would
+    // both press.
+    let pressed = match layout.last_queued_event((x, y)) {
+        Some(Event::Press(..)) => true,
+        Some(Event::Release(..)) => false,
+        None => states_has_coord(&layout.states, x, y),
+    };
     match action {
-        FakeKeyAction::Press => layout.event(Event::Press(x, y)),
+        // Pressing a key that is pressed does nothing.
+        FakeKeyAction::Press => {
+            if !pressed {
+                layout.event(Event::Press(x, y));
+            }
+        }
         FakeKeyAction::Release => layout.event(Event::Release(x, y)),
+        // Tapping a key that is pressed only releases it.
         FakeKeyAction::Tap => {
-            layout.event(Event::Press(x, y));
+            if !pressed {
+                layout.event(Event::Press(x, y));
+            }
             layout.event(Event::Release(x, y));
         }
         FakeKeyAction::Toggle => {
-            // An operation on the key that is still queued decides, once it is processed, whether
-            // the key is pressed; `states` does not show it yet. Without this, two toggles before
-            // the next tick would both press.
-            let pressed = match layout.last_queued_event((x, y)) {
-                Some(Event::Press(..)) => true,
-                Some(Event::Release(..)) => false,
-                None => states_has_coord(&layout.states, x, y),
-            };
             match pressed {
                 true => layout.event(Event::Release(x, y)),
                 false => layout.event(Event::Press(x, y)),
